@@ -346,6 +346,10 @@ pub mod verif_hook {
         /// `None`: no violation; `Some(new_raw)`: violation with a fix replacing the token by `new_raw`
         pub fixed: Option<String>,
         pub description: Option<String>,
+        /// `description_elem` of the calling rule ("Keywords", "Unquoted identifiers", "Datatypes", ...)
+        pub elem: String,
+        /// syntax kind of the segment handed in
+        pub seg_type: &'static str,
     }
 
     thread_local! {
@@ -379,6 +383,7 @@ pub mod verif_hook {
         let (refuted_before, latest_before) = memory(context);
         let raw = seg.raw().to_string();
         let templated = seg.is_templated();
+        let seg_type = seg.get_type().as_str();
         INSIDE.with(|i| i.set(true));
         let res = std::panic::catch_unwind(std::panic::AssertUnwindSafe(|| {
             handle_segment(
@@ -409,6 +414,8 @@ pub mod verif_hook {
                             latest_after,
                             fixed: None,
                             description: Some("<panicked>".to_string()),
+                            elem: description_elem.to_string(),
+                            seg_type,
                         });
                     }
                 });
@@ -434,6 +441,8 @@ pub mod verif_hook {
                     latest_after,
                     fixed,
                     description: res.anchor.as_ref().map(|_| format!("{res:?}")),
+                    elem: description_elem.to_string(),
+                    seg_type,
                 });
             }
         });
